@@ -156,7 +156,8 @@ pub fn run(cfg: &Cfg) {
     } else {
         // structured grid: every strategy x steps x factors x attempt counts x max on/off
         let steps = [
-            Duration::ZERO, Duration::new(0, 1), Duration::from_millis(50), Duration::from_secs(1),
+            Duration::ZERO, Duration::new(0, 1), Duration::from_micros(750), Duration::from_micros(1500), Duration::from_millis(50), Duration::from_secs(1),
+            Duration::from_millis(1750), Duration::from_millis(1900), Duration::from_millis(2500),
             Duration::new(3, 999_999_999), Duration::from_secs(u32::MAX as u64), Duration::from_secs(1 << 40),
             Duration::new(u64::MAX / 2, 5), Duration::MAX,
         ];
